@@ -127,6 +127,9 @@ class _GenRun:
         except _GenExit:
             pass
         except BaseException as e:      # pylint: disable=broad-except
+            if isinstance(e, Raised) and e.exc == 'StopIteration':
+                # PEP 479: a StopIteration that leaves the body of a generator arrives at the consumer as RuntimeError
+                e = Raised('RuntimeError', e.version, e.lineno)
             self.exc = e
         self.finished = True
         self.rsp.release()
@@ -576,6 +579,18 @@ class Interp:
                 raise
         return PyIter([], producer)
 
+    def defaults_now(self, node, env, cls):
+        """the default values of a nested function / lambda, computed where it is defined (parameter -> value)"""
+        a_ = node.args
+        params = [x.arg for x in a_.args]
+        out = {}
+        for p_, d_ in zip(params[len(params) - len(a_.defaults):], a_.defaults):
+            out[p_] = self.ev(d_, env, cls)
+        for x_, d_ in zip(a_.kwonlyargs, a_.kw_defaults):
+            if d_ is not None:
+                out[x_.arg] = self.ev(d_, env, cls)
+        return out
+
     def call(self, fn, args, kwargs=None):
         """fn: Closure"""
         h = self.h
@@ -594,9 +609,11 @@ class Interp:
                 elif len(args) > len(params):
                     raise AnalysisError('heap model: too many arguments for a lambda')
                 env.update(zip(params, args))
+                given_ = set(params[:len(args)]) | set(kwargs or {})
+                stored_ = getattr(fn, 'defaults', None)
                 for p, d in zip(params[len(params) - len(node.args.defaults):], node.args.defaults):
-                    if p not in env:
-                        env[p] = self.ev(d, env, fn.cls)
+                    if p not in given_:
+                        env[p] = stored_[p] if stored_ is not None and p in stored_ else self.ev(d, env, fn.cls)
                 for k, v in (kwargs or {}).items():
                     env[k] = v
                 return self.ev(node.body, env, fn.cls)
@@ -612,11 +629,18 @@ class Interp:
                 raise AnalysisError('heap model: too many arguments for %s' % node.name)
             env.update(zip(params, allargs))
             defaults = node.args.defaults
+            given_ = set(params[:len(allargs)]) | set(kwargs or {})
+            stored_ = getattr(fn, 'defaults', None)
             for p, d in zip(params[len(params) - len(defaults):], defaults):
-                if p not in env:
-                    env[p] = self.ev(d, env, fn.cls)
+                if p not in given_:
+                    env[p] = stored_[p] if stored_ is not None and p in stored_ else self.ev(d, env, fn.cls)
             for a, d in zip(node.args.kwonlyargs, node.args.kw_defaults):
-                env[a.arg] = (kwargs or {}).get(a.arg, self.ev(d, env, fn.cls) if d is not None else None)
+                if a.arg in (kwargs or {}):
+                    env[a.arg] = kwargs[a.arg]
+                elif stored_ is not None and a.arg in stored_:
+                    env[a.arg] = stored_[a.arg]
+                else:
+                    env[a.arg] = self.ev(d, env, fn.cls) if d is not None else None
             named = set(params) | {a.arg for a in node.args.kwonlyargs}
             if node.args.kwarg is not None:
                 # def f(..., **rest): the keyword arguments that name no parameter, as a dictionary
@@ -628,8 +652,9 @@ class Interp:
                 kwargs = {k: v for k, v in (kwargs or {}).items() if k in named}
             for k, v in (kwargs or {}).items():
                 env[k] = v
-            for p in params:
-                if p not in env:
+            nd_ = len(params) - len(defaults)
+            for i_, p in enumerate(params):
+                if p not in given_ and i_ < nd_:
                     raise AnalysisError('heap model: missing argument %s of %s' % (p, node.name))
             is_gen = any(isinstance(x, (ast.Yield, ast.YieldFrom)) for x in _walk_fn(node))
             if is_gen and getattr(h, 'lazy_generators', True):
@@ -1024,25 +1049,39 @@ class Interp:
                     if isinstance(seq_, tuple) and not (seq_ and isinstance(seq_[0], str) and seq_[0] in ('regex', 'record', 'partial', 'class', 'hook', 'extern')):
                         return seq_ * max(cnt_, 0)
         if isinstance(e, ast.Lambda):
-            return Closure(e, dict(env), None, cls)
+            # the enclosing variables are read when the lambda is CALLED (one scope, late binding); its defaults are computed now
+            c_ = Closure(e, env, None, cls)
+            c_.defaults = self.defaults_now(e, env, cls)
+            return c_
         if isinstance(e, (ast.GeneratorExp, ast.ListComp, ast.DictComp, ast.SetComp)) and not any(g.is_async for g in e.generators):
             # comprehensions with any number of `for` clauses and conditions: the clauses nest from left to right
-            results = []
+            # a comprehension has ONE scope of its own: every round of its loops re-binds the same variables (a function made inside
+            # reads them when it is called); the first iterable is computed where the comprehension stands, the rest inside
+            scope_ = dict(env)
+            first_ = self.ev(e.generators[0].iter, env, cls)
 
-            def clauses(k, env2):
+            def clauses(k):
                 if k == len(e.generators):
                     if isinstance(e, ast.DictComp):
-                        results.append((self.ev(e.key, env2, cls), self.ev(e.value, env2, cls)))
+                        yield (self.ev(e.key, scope_, cls), self.ev(e.value, scope_, cls))
                     else:
-                        results.append(self.ev(e.elt, env2, cls))
+                        yield self.ev(e.elt, scope_, cls)
                     return
                 g = e.generators[k]
-                for v in self.seq(self.ev(g.iter, env2 if k else env, cls)):
-                    env3 = dict(env2)
-                    self.assign(g.target, v, env3, cls)
-                    if all(self.truth(self.ev(c, env3, cls)) for c in g.ifs):
-                        clauses(k + 1, env3)
-            clauses(0, dict(env))
+                for v in self.walk(first_ if k == 0 else self.ev(g.iter, scope_, cls)):
+                    self.assign(g.target, v, scope_, cls)
+                    if all(self.truth(self.ev(c, scope_, cls)) for c in g.ifs):
+                        yield from clauses(k + 1)
+            if isinstance(e, ast.GeneratorExp) and getattr(h, 'lazy_generators', True):
+                # a generator expression computes an item when it is asked for one
+                run_ = clauses(0)
+
+                def producer_():
+                    for x_ in run_:
+                        return (True, x_)
+                    return (False, None)
+                return PyIter([], producer_)
+            results = list(clauses(0))
             if isinstance(e, ast.GeneratorExp):
                 return results
             if isinstance(e, ast.ListComp):
@@ -1507,6 +1546,14 @@ class Interp:
                             best_ = i_
                     return vals[best_]
             raise AnalysisError('heap model: %s of %s' % (fn.id, norm(e)[:60]))
+        if norm(fn) in ('set.union', 'set.intersection', 'set.difference', 'frozenset.union', 'frozenset.intersection', 'frozenset.difference') \
+                and norm(fn).split('.')[0] not in env and not kwargs:
+            # the method taken from the type: the first argument is the receiver (none: TypeError); the result is a NEW set
+            if not args or not isinstance(args[0], (set, frozenset)):
+                raise Raised('TypeError', h.version, e.lineno)
+            rest_ = [set(self.seq(a_)) if not isinstance(a_, (set, frozenset)) else a_ for a_ in args[1:]]
+            r_ = getattr(set(args[0]), fn.attr)(*rest_)
+            return r_ if norm(fn).startswith('set.') else frozenset(r_)
         if isinstance(fn, ast.Name) and fn.id in ('set', 'frozenset') and len(args) <= 1 and fn.id not in env:
             items = self.seq(args[0]) if args else []
             if not all(isinstance(x, (str, int, tuple, Key, SStr)) for x in items):
@@ -2579,6 +2626,7 @@ class Interp:
             return None
         if isinstance(st, ast.FunctionDef):
             env[st.name] = Closure(st, env, None, cls)      # reads the enclosing variables at call time
+            env[st.name].defaults = self.defaults_now(st, env, cls)          # (its defaults are computed now)
             return None
         if isinstance(st, ast.Break):
             return ('break', None)
